@@ -27,20 +27,25 @@ ATTR_KIND = {
     "rx": "length", "ry": "length", "x1": "length", "y1": "length", "x2": "length", "y2": "length",
     "style": "style", "patternTransform": "transform", "dx": "length", "dy": "length", "font-size": "length",
     "preserveAspectRatio": "par", "clip-path": "clip",
+    # names that are no SVG attributes but keys the library uses in its own value dictionaries
+    "image": "odd", "text": "odd", "tag": "odd", "attributes": "odd", "apply": "odd", "center": "odd", "pathd_loaded": "odd",
+    "viewport_transform": "odd", "stroke_width": "odd", "font_size": "odd", "path": "odd", "segments": "odd", "title": "odd", "desc": "odd",
 }
 # attributes any graphics or container element may carry: a fault may also *add* one of them, malformed
-ADDABLE = ["clip-path", "transform", "style", "fill", "stroke", "opacity", "stroke-width", "fill-opacity", "stroke-opacity"]
+ADDABLE = ["clip-path", "transform", "style", "fill", "stroke", "opacity", "stroke-width", "fill-opacity", "stroke-opacity",
+           "image", "text", "tag", "attributes", "apply", "center", "pathd_loaded", "viewport_transform", "stroke_width", "font_size", "path", "segments", "title", "desc"]
 
 BAD = {
     "transform": ["matrix(1 2 3)", "rotate()", "rotate(abc)", "foo(1)", "translate(1", "scale(,)", "matrix(1,2,3,4,5,x)", "rotate(1e)", ")", "translate(", "matrix()", "rotate(30", "scale(2) rotate(", "translate(1,2,3) matrix(1)", "skewX()", "12", "scale(1 2 3 4)", "rotate(10,20)", "translate(--1)", "matrix(1,0,0,1,0)"],
     "colour": ["#12", "rgb(300,,)", "hsl(1,2,3)", "junk", "url(#nope)", "rgb(1,2", "#gggggg", "rgba()", "rgb(a,b,c)", "#", "hsl(120,100%)", "rgb(1,2,3,4,5)", "12", "rgb(10%,20,30%)", "#1234567", "rgb()", "hsla(1,2%,3%,x)", "colour", "rgb(1e400,0,0)", "#ff ff ff"],
-    "length": ["abc", "1..2", "5zz", "-", "+", "1e", "px", "%", "", " ", "1e400", "--5", "5 5", "0x10", "NaN", "1,5", "e5", ".", "5e+", "∞"],
+    "length": ["abc", "1..2", "5zz", "-", "+", "1e", "px", "%", "", " ", "1e400", "--5", "5 5", "0x10", "NaN", "1,5", "e5", ".", "5e+", "∞", "1em", "2.5ex", "1em"],
     "points": ["1,2 3", "1,2,x", "junk", "1 2 3 4 5", "", ",", "1,,2", "1e 2", "a,b c,d", "1,2 3,4 5,", "(1,2)", "1;2 3;4"],
     "viewbox": ["0 0 100", "a b c d", "0,0,,", "", "0 0 0 0", "1 2 3 4 5", "0 0 -10 10", "0 0 1e400 1", "none", "0 0 100 x"],
     "number": ["junk", "1..", "-", "", "1e", "50%%", "0,5", "abc", "1e400", "++1"],
+    "odd": ["x", "", "1", "none", "M0,0 h", "rotate(", "#12", "a b", "True", "0"],
     "clip": ["none", "inherit", "", "#c", "url(#c", "junk", "url", "url(#nope)", "url()", "url(#c) url(#d)", "URL(#c)", "url( #c )", "url('#c')", "#", "url(#"],
     "par": ["xMidYMid foo", "none none", "", "junk", "xMinYMin meet slice", "slice", "xmidymid", "xMaxYMax  ", "meet xMidYMid", "defer"],
-    "style": ["fill:#gg;stroke:rgb(300,,)", "fill", ":::", "stroke-width:1..2", "fill:url(#nope)", "fill:#12;stroke-width:abc;;:", "stroke:hsl(1,2,3);fill-opacity:1e400", "transform:matrix(1 2 3)", "fill:rgb(1,2", ";", "fill:red;stroke-width:-;stroke:#1234567", "stroke-opacity:junk;fill:", "fill:red:blue", "d:M0,0 h"],
+    "style": ["fill:#gg;stroke:rgb(300,,)", "fill", ":::", "stroke-width:1..2", "fill:url(#nope)", "fill:#12;stroke-width:abc;;:", "stroke:hsl(1,2,3);fill-opacity:1e400", "transform:matrix(1 2 3)", "fill:rgb(1,2", ";", "fill:red;stroke-width:-;stroke:#1234567", "stroke-opacity:junk;fill:", "fill:red:blue", "d:M0,0 h", "image:x", "text:y;tag:z", "attributes:1;apply:0"],
 }
 
 
